@@ -4,7 +4,7 @@
 # unedited test suite passes with it. Writes <dir>/confirm.log and prints a one-line verdict.
 set -u
 D=$1
-WT=/tmp/wt-confirm
+WT=${WT:-/tmp/wt-confirm}
 export CARGO_NET_OFFLINE=true CARGO_TARGET_DIR=$WT/target
 if [ ! -d $WT ]; then git -C /repo worktree add -q --detach $WT HEAD; fi
 cd $WT && git checkout -q --detach $(git -C /repo rev-parse HEAD) && git checkout -q -- . && git clean -fdq -e target
@@ -21,9 +21,9 @@ echo "== demo without patch" >> $LOG; run_demo; A=$?
 git apply $D/patch.diff >> $LOG 2>&1 || { echo "PATCH-DOES-NOT-APPLY $D"; exit 2; }
 echo "== demo with patch" >> $LOG; run_demo; B=$?
 echo "== suite with patch" >> $LOG
-mv $WT/$DEMO_REL /tmp/.demo_hold.rs
+mv $WT/$DEMO_REL $WT/.demo_hold.rs
 nice -n 5 cargo test --workspace --no-fail-fast --offline >> $LOG 2>&1; C=$?
-mv /tmp/.demo_hold.rs $WT/$DEMO_REL
+mv $WT/.demo_hold.rs $WT/$DEMO_REL
 git checkout -q -- . ; rm -f $WT/$DEMO_REL
 echo "$D demo_without=$A demo_with=$B suite_with=$C" | tee -a $LOG
 [ $A -eq 0 ] && [ $B -ne 0 ] && [ $C -eq 0 ] && echo "CONFIRMED $D" || echo "NOT-CONFIRMED $D"
